@@ -207,6 +207,8 @@ def run_impl(fmt, src, d, tier_file=None):
         return ux.Grid.from_face_vertices(src, latlon=(d["coords"] == "lonlat"))
     if fmt == "geo":
         return ux.Grid.from_file(src, backend="geopandas")
+    if fmt == "exodus_fixture":
+        return ux.open_grid(src)
     raise ValueError(fmt)
 
 
@@ -224,6 +226,8 @@ def build_case(c, rng):
         return S.build_scrip(am, d, rng)
     if fmt == "exodus":
         return S.build_exodus(am, d, rng)
+    if fmt == "exodus_fixture":
+        return S.build_exodus_fixture(d, common.REPO)
     if fmt == "esmf":
         return S.build_esmf(am, d, rng)
     if fmt == "fv":
@@ -263,6 +267,8 @@ def input_flags(c, ex, image):
     elif fmt == "exodus":
         fl["multi_block"] = image["n_blocks"] > 1
         fl["coordxyz"] = d["coord"] == "xyz"
+    elif fmt == "exodus_fixture":
+        fl["multi_block"] = image["n_blocks"] > 1
     elif fmt == "esmf":
         fl["start_index_attr"] = d["start"]
     elif fmt == "fv":
@@ -537,12 +543,11 @@ def model_jobs(c, src, ex, image, g):
         if g is not None:
             nodes = list(zip(np.asarray(ds["node_lon"].values, dtype=float).tolist(), np.asarray(ds["node_lat"].values, dtype=float).tolist()))
         jobs.append((fmt, line, "nodes_table", (tk, nodes, impl_table("face_node_connectivity"))))
-    elif fmt == "exodus":
+    elif fmt in ("exodus", "exodus_fixture"):
         w = max(len(b[0]) for b in image["blocks"])
-        jobs.append(("exodus", sx([d["coord"] == "coord", image["blocks"], w]), "table0",
+        jobs.append(("exodus", sx([True, image["blocks"], w]), "table0",
                      ("face_node_connectivity", impl_table("face_node_connectivity"))))
-        n = len(S.AMesh.from_json(c["mesh"]).xyz)
-        if g is not None:
+        if g is not None and fmt == "exodus":
             am = S.AMesh.from_json(c["mesh"])
             srcs = [[p[k] for p in am.xyz] for k in range(3)]
             got = [np.asarray(ds[v].values, dtype=float).tolist() for v in ("node_x", "node_y", "node_z")]
@@ -743,12 +748,14 @@ def run_case(ck, c, stats, collect):
                 collect.setdefault(cmd, []).append((line, kind, payload, case))
             for cmd, line, payload in wrap_jobs(c, src, ex, g):
                 collect.setdefault(cmd, []).append((line, "wrap", payload, case))
-            if fmt in SNIFF:
+            if fmt in SNIFF and src is not None:
                 from uxarray.io.utils import _parse_grid_type
                 collect.setdefault("sniff", []).append((sx(sniff_keys(src)), "sniff", (SNIFF[fmt], _parse_grid_type(src)), case))
         except Exception as e:
             import traceback
             ck.corr_failures.append({"case": case, "error": "model job construction: " + traceback.format_exc()[-600:]})
+    if fmt == "exodus_fixture":
+        src = None                           # a file of the repository: never removed
     for pth in ([src] if fmt == "geo" else []) + ([path] if path else []):
         try:
             os.remove(pth)
